@@ -7,7 +7,8 @@ From SG Require Threshold.Model.
 Import ListNotations.
 Open Scope N_scope.
 
-Module T := Threshold.Model.
+(* the threshold model is referred to by its qualified name (no module alias: monolithic extraction of
+   check_command cannot go through an alias of a file-level module) *)
 
 (* what the walk and the counter deliver for one file *)
 Record finput := mkIn {
@@ -15,44 +16,44 @@ Record finput := mkIn {
   fi_scanned : bool;                 (* yielded by the walk *)
   fi_ev : list bool;                 (* content.exclude match vector (real globset) *)
   fi_mv : list bool;                 (* content.rules match vector *)
-  fi_ext : option T.str;             (* Path::extension *)
-  fi_stats : option T.line_stats;    (* None: unreadable, no recognised language, or ignore-file *)
+  fi_ext : option Threshold.Model.str;             (* Path::extension *)
+  fi_stats : option Threshold.Model.line_stats;    (* None: unreadable, no recognised language, or ignore-file *)
   fi_hash : str
 }.
 
-Definition conv (s : T.status) : status :=
-  match s with T.Passed => Passed | T.Warning => Warning | T.Failed => Failed end.
+Definition conv (s : Threshold.Model.status) : status :=
+  match s with Threshold.Model.Passed => Passed | Threshold.Model.Warning => Warning | Threshold.Model.Failed => Failed end.
 
-Definition fact_of (ck : T.checker) (f : finput) : ffact :=
-  let sel := T.should_process ck (fi_ev f) (fi_mv f) (fi_ext f) in
+Definition fact_of (ck : Threshold.Model.checker) (f : finput) : ffact :=
+  let sel := Threshold.Model.should_process ck (fi_ev f) (fi_mv f) (fi_ext f) in
   match fi_stats f with
   | Some s =>
-      let r := T.process_for_check ck (fi_mv f) s in
-      mkFact (fi_path f) (fi_scanned f) sel true (T.sloc (T.res_stats r)) (T.res_limit r)
-             (T.warn_limit_for ck (fi_mv f) (T.res_limit r)) (fi_hash f)
+      let r := Threshold.Model.process_for_check ck (fi_mv f) s in
+      mkFact (fi_path f) (fi_scanned f) sel true (Threshold.Model.sloc (Threshold.Model.res_stats r)) (Threshold.Model.res_limit r)
+             (Threshold.Model.warn_limit_for ck (fi_mv f) (Threshold.Model.res_limit r)) (fi_hash f)
   | None => mkFact (fi_path f) (fi_scanned f) sel false 0 0 0 (fi_hash f)
   end.
 
 (* the whole `check` command on a configuration, CLI overrides and a scanned tree *)
-Definition config_rejected (cfg : T.config) (a : T.cli_overrides) : bool :=
-  negb (T.validate_content cfg) || negb (T.validate_content (T.apply_cli_overrides cfg a)).
+Definition config_rejected (cfg : Threshold.Model.config) (a : Threshold.Model.cli_overrides) : bool :=
+  negb (Threshold.Model.validate_content cfg) || negb (Threshold.Model.validate_content (Threshold.Model.apply_cli_overrides cfg a)).
 
-Definition check_command (cfg : T.config) (a : T.cli_overrides) (fl : flags) (ins : list finput)
+Definition check_command (cfg : Threshold.Model.config) (a : Threshold.Model.cli_overrides) (fl : flags) (ins : list finput)
            (sres : list result) (dirs : list key) (disk : option baseline) : outcome :=
-  check_run (config_rejected cfg a) fl (map (fact_of (T.check_checker cfg a)) ins) sres dirs disk.
+  check_run (config_rejected cfg a) fl (map (fact_of (Threshold.Model.check_checker cfg a)) ins) sres dirs disk.
 
-Lemma verdict_conv : forall c lim w, verdict c lim w = conv (T.verdict c lim w).
-Proof. intros. unfold verdict, T.verdict. destruct (lim <? c); [reflexivity|]. destruct (w <=? c); reflexivity. Qed.
+Lemma verdict_conv : forall c lim w, verdict c lim w = conv (Threshold.Model.verdict c lim w).
+Proof. intros. unfold verdict, Threshold.Model.verdict. destruct (lim <? c); [reflexivity|]. destruct (w <=? c); reflexivity. Qed.
 
 Lemma fact_verdict : forall ck f s,
   fi_stats f = Some s ->
   verdict (ff_count (fact_of ck f)) (ff_limit (fact_of ck f)) (ff_warn (fact_of ck f)) =
-  conv (T.res_status (T.process_for_check ck (fi_mv f) s)).
+  conv (Threshold.Model.res_status (Threshold.Model.process_for_check ck (fi_mv f) s)).
 Proof.
   intros ck f s Hs. unfold fact_of. rewrite Hs. cbn [ff_count ff_limit ff_warn].
   rewrite verdict_conv. f_equal.
-  unfold T.process_for_check. destruct (T.skip_settings_for ck (fi_mv f)) as [sc sb].
-  unfold T.check. destruct (T.limit_for ck (fi_mv f)) as [limit reason]. reflexivity.
+  unfold Threshold.Model.process_for_check. destruct (Threshold.Model.skip_settings_for ck (fi_mv f)) as [sc sb].
+  unfold Threshold.Model.check. destruct (Threshold.Model.limit_for ck (fi_mv f)) as [limit reason]. reflexivity.
 Qed.
 
 Definition adjust (l : option baseline) (path : str) (s : status) : status :=
@@ -63,14 +64,14 @@ Definition adjust (l : option baseline) (path : str) (s : status) : status :=
 Theorem composed_statuses : forall cfg a fl ins sres dirs disk l,
   config_rejected cfg a = false ->
   load_for_run fl disk = Some l ->
-  let ck := T.check_checker cfg a in
+  let ck := Threshold.Model.check_checker cfg a in
   let out := check_command cfg a fl ins sres dirs disk in
   forall f s, In f ins -> fi_scanned f = true -> fi_stats f = Some s ->
-    T.should_process ck (fi_ev f) (fi_mv f) (fi_ext f) = true ->
+    Threshold.Model.should_process ck (fi_ev f) (fi_mv f) (fi_ext f) = true ->
     exists r, In r (o_results out) /\ r_path r = fi_path f /\ r_kind r = Content /\
-      r_status r = adjust l (fi_path f) (conv (T.res_status (T.process_for_check ck (fi_mv f) s))) /\
-      r_code r = T.sloc (T.res_stats (T.process_for_check ck (fi_mv f) s)) /\
-      r_limit r = T.res_limit (T.process_for_check ck (fi_mv f) s).
+      r_status r = adjust l (fi_path f) (conv (Threshold.Model.res_status (Threshold.Model.process_for_check ck (fi_mv f) s))) /\
+      r_code r = Threshold.Model.sloc (Threshold.Model.res_stats (Threshold.Model.process_for_check ck (fi_mv f) s)) /\
+      r_limit r = Threshold.Model.res_limit (Threshold.Model.process_for_check ck (fi_mv f) s).
 Proof.
   intros cfg a fl ins sres dirs disk l Hrej Hl ck out f s Hin Hsc Hs Hsp.
   unfold out, check_command. rewrite Hrej.
@@ -83,7 +84,7 @@ Proof.
   assert (Hpath : ff_path (fact_of ck f) = fi_path f) by (unfold fact_of; rewrite Hs; reflexivity).
   rewrite Hpath in Hp. split; [exact Hp|]. split; [exact Hk|]. split.
   - rewrite Hst. unfold spec_status, adjust. rewrite (fact_verdict ck f s Hs), Hpath.
-    destruct (conv (T.res_status (T.process_for_check ck (fi_mv f) s))); reflexivity.
+    destruct (conv (Threshold.Model.res_status (Threshold.Model.process_for_check ck (fi_mv f) s))); reflexivity.
   - split.
     + rewrite Hc. unfold fact_of. rewrite Hs. reflexivity.
     + rewrite Hlim. unfold fact_of. rewrite Hs. reflexivity.
@@ -97,11 +98,11 @@ Proof. intros cfg a fl ins sres dirs disk H. unfold check_command, check_run. re
 (* a file the configuration does not select is never reported *)
 Theorem composed_unselected_silent : forall cfg a fl ins sres dirs disk l,
   config_rejected cfg a = false -> load_for_run fl disk = Some l ->
-  let ck := T.check_checker cfg a in
+  let ck := Threshold.Model.check_checker cfg a in
   forall r, In r (o_results (check_command cfg a fl ins sres dirs disk)) -> r_kind r = Content ->
     (forall s, In s sres -> r_kind s <> Content) ->
     exists f, In f ins /\ r_path r = fi_path f /\ fi_scanned f = true /\
-              T.should_process ck (fi_ev f) (fi_mv f) (fi_ext f) = true /\ fi_stats f <> None.
+              Threshold.Model.should_process ck (fi_ev f) (fi_mv f) (fi_ext f) = true /\ fi_stats f <> None.
 Proof.
   intros cfg a fl ins sres dirs disk l Hrej Hl ck r Hr Hk Hs.
   unfold check_command in Hr. rewrite Hrej in Hr.
